@@ -138,6 +138,26 @@ class Ctx:
             module, cfg, res["distinct_states"], res["states_generated"], len(actions), dt))
         return res
 
+    def tlc_actions(self, module, cfg, expected, timeout=300):
+        """Vacuity check without -coverage: dump the (small) state graph of `cfg` with action labels
+        and require every action name in `expected` on at least one edge."""
+        dot = self.path("graph_%s.dot" % cfg.replace(".cfg", ""))
+        rc, out, dt = self._tlc(module, cfg, ["-dump", "dot,actionlabels", dot], 1, timeout, tag="dump")
+        if "Model checking completed. No error has been found." not in out:
+            raise ToolError("TLC failed on %s/%s\n%s" % (module, cfg, out[-3000:]))
+        counts = {}
+        with open(dot) as f:
+            for m in re.finditer(r'-> -?\d+ \[label="(\w+)"', f.read()):
+                counts[m.group(1)] = counts.get(m.group(1), 0) + 1
+        os.remove(dot)
+        missing = [a for a in expected if counts.get(a, 0) == 0]
+        if missing:
+            raise ToolError("TLC never took action(s) %s in %s/%s (vacuous run)" % (missing, module, cfg))
+        self.cov["tlc_runs"].append({"module": module, "cfg": cfg, "mode": "action-coverage (state graph dump)",
+                                     "actions": counts, "wall_s": round(dt, 2)})
+        log("TLC %s/%s: actions on edges %s" % (module, cfg, counts))
+        return counts
+
     def tlc_gen(self, module, cfg, out_name, simulate=None, timeout=600, tagline="SCN", dedup=True, workers=1):
         """Let TLC print behaviours as JSON lines `<<"SCN", "<json>">>`; returns the scenario list.
         simulate=(num, depth) uses random simulation seeded by VERIF_SEED, else exhaustive BFS."""
